@@ -137,7 +137,7 @@ PROPS = {
         "shrink_budget": 0,
     },
     "C10": {
-        "lean_modules": ["Props.Facts10"],
+        "lean_modules": ["Props.Facts10", "Props.Gen10", "Props.GenT10"],
         "groups": [{"name": "C10", "quick": 4000, "thorough": 150000},
                    # remote pages over the simulator (pages named by URL, on other hosts, URLs that differ in letter case only)
                    {"name": "C02", "quick": 600, "thorough": 20000}],
@@ -315,10 +315,10 @@ MANIFEST_TEXT = {
         "technique": "Lean 4 proof (prefix lemmas on the response reader) + fault enumeration against a TLS simulator",
     },
     "C10": {
-        "text": "Lean theorems for every page chain given by an arbitrary load function (cyclic and endless chains included) and all request sizes and offsets: bounded number of pages visited; the delivery is a prefix of the true sequence followed by at most one error item; a continuation means exactly the requested amount; harvesting n1 then n2 equals harvesting n1+n2; an empty continuation without error only at a clean end with everything delivered; refusal only after more than three consecutive empty pages. Termination itself is the well-founded measure of the model. Tied to collection.go by differential correspondence on generated embedded chains; the prefix predicate is evaluated on every implementation output.",
+        "text": "Lean theorems for every page chain given by an arbitrary load function (cyclic and endless chains included) and all request sizes and offsets: bounded number of pages visited; the delivery is a prefix of the true sequence followed by at most one error item; a continuation means exactly the requested amount; harvesting n1 then n2 equals harvesting n1+n2; an empty continuation without error only at a clean end with everything delivered; refusal only after more than three consecutive empty pages. Termination itself is the well-founded measure of the model. Tied to collection.go twice: Harvest and harvestWithEmptyCount are translated to Lean on every run (extract/go2lean6.go -> Generated/GoCollection.lean: a recursion on explicit fuel, wrapping uint/int arithmetic, the goroutine fan-out run in program order) and proved equal to the model for every fuel from (amount+1)*4+1 on (Props/Gen10.lean: same entries, same continuation, no panic; the model's page count is exactly the recursion depth of the code), so the code as translated terminates on every chain and the theorems are restated about it (Props/GenT10.lean); and by differential correspondence on generated embedded chains; the prefix predicate is evaluated on every implementation output.",
         "design_ref": "DESIGN.md §5 C10",
-        "note": "Trusted: Lean kernel; correspondence check (testing); encoding/json; the goroutine fan-out inside Harvest modelled as an order-preserving map.",
-        "technique": "Lean 4 proof (well-founded recursion + functional induction) + differential correspondence",
+        "note": "Trusted: Lean kernel; the translator extract/go2lean6.go and its semantics library (Model/GoRec.lean: fuel, wrapping uint, errors as classes, the fan-out over disjoint cells run sequentially - the disjointness is a C08 fact); correspondence check (testing); encoding/json. Assumes amount + startingPoint < 2^64.",
+        "technique": "Lean 4 proof (well-founded recursion + functional induction; equivalence of the translated Go code with the model by induction on fuel) + differential correspondence",
     },
     "C11": {
         "text": "Lean theorems for all source lists, timestamps and request sizes: each microharvest pops the first head with maximal timestamp; taking q items is a trace of pops, each source's delivered items followed by its remaining buffer equal its original buffer (exactly once, order kept); taking q1 then q2 equals taking q1+q2; skipping then taking equals dropping; the continuation is none exactly when the buffers ran dry. Tied to splicer.go by differential correspondence over synthetic sources through a package-internal shim.",
